@@ -22,10 +22,21 @@ func init() {
 	add("C09", checkEveryLaunchedAgentShutDown, checkSupervisorCallsUncancellable)
 	add("C10", checkInvokeAnsweredAfterSandbox)
 	add("C13", checkAgentErrorTypeNonEmpty)
-	add("C14", checkMetricsOnlyForDeliveredReply)
+	add("C14", checkMetricsOnlyForDeliveredReply, checkRefusedResponseLeavesReplyUntouched)
 	add("C17", checkDirectInvokeKeepsNoHistory, checkLimiterClosedByCopyOnly)
 	add("C19", checkSupervisorEventsIsTheChannel)
 	add("C16", checkExecEnvUsedAsBuilt)
+	add("C13", checkNoLostReceiverWrites, checkCountAgentsCountsAll)
+	add("C08", checkNoLostReceiverWrites)
+	add("C03", checkNoLostReceiverWrites, checkRegistrationRules, checkGateCounts, checkAgentHandlers)
+	// rules that reported a round-9 seed through a sibling property only
+	add("C01", checkCancelRearmed)
+	add("C02", checkIDAndDeadline)
+	add("C05", checkShutdownAgents)
+	add("C06", checkFreshExecRequestPerProcess, checkCarriersAll)
+	add("C09", checkExecThenChannel)
+	add("C12", checkInitTypeBeforeServer)
+	add("C15", checkAppCtxKeys)
 	add("C07", checkFastInvokeWaitsForSender, checkConstSlicesGuarded)
 	add("C01", checkFastInvokeWaitsForSender, checkInvokeAnsweredAfterSandbox, checkMetricsOnlyForDeliveredReply)
 	add("C05", checkFastInvokeWaitsForSender, checkSupervisorCallsUncancellable)
@@ -37,7 +48,7 @@ var round10Text = map[string]string{
 	"C01": "Round 10: the dispatcher abandons the reply sink only when the reservation is cancelled.",
 	"C09": "Round 10: the teardown treats every extension that was launched, whatever state it reports; its supervisor requests carry a context that cannot expire and the local supervisor consults none.",
 	"C13": "Round 10: an extension's error transition needs a non-empty error type.",
-	"C14": "Round 10: response metrics are handed over only after the reply was written, on an unbuffered channel.",
+	"C14": "Round 10: response metrics are handed over only after the reply was written, on an unbuffered channel; a refused response has not touched the reply stream.",
 	"C17": "Round 10: the direct-invoke package keeps no state between requests and Load starts from the empty record; only the copy closes the limiting writer.",
 	"C19": "Round 10: Events hands out the one event channel itself.",
 	"C16": "Round 10: package rapid uses the exec environments exactly as the env package built them.",
@@ -60,7 +71,7 @@ var (
 
 // condMentions walks the definition of a branch condition (through arithmetic, comparisons, conversions, φs and
 // extractions) and reports the calls and the field loads it depends on.
-func condMentions(v ssa.Value) (calls []string, fields []string) {
+func condMentions(v ssa.Value, fx ...*an.Facts) (calls []string, fields []string) {
 	seen := map[ssa.Value]bool{}
 	var walk func(v ssa.Value, d int)
 	walk = func(v ssa.Value, d int) {
@@ -85,8 +96,14 @@ func condMentions(v ssa.Value) (calls []string, fields []string) {
 		case *ssa.Extract:
 			walk(x.Tuple, d+1)
 		case *ssa.Phi:
-			for _, e := range x.Edges {
+			for i, e := range x.Edges {
 				walk(e, d+1)
+				// a joined flag says what the branches that chose its value said
+				if len(fx) > 0 && fx[0] != nil && x.Block() != nil && i < len(x.Block().Preds) {
+					for _, ft := range fx[0].At(x.Block().Preds[i]) {
+						walk(ft.Cond, d+1)
+					}
+				}
 			}
 		case *ssa.Convert:
 			walk(x.X, d+1)
@@ -129,7 +146,7 @@ func checkEveryLaunchedAgentShutDown(c *report.Ctx) {
 		}
 		n++
 		for _, ft := range facts.At(g.Block()) {
-			calls, fields := condMentions(ft.Cond)
+			calls, fields := condMentions(ft.Cond, facts)
 			for _, cl := range calls {
 				if !allowedCall[cl] {
 					bad = append(bad, "call "+cl)
@@ -715,4 +732,106 @@ func checkExecEnvUsedAsBuilt(c *report.Ctx) {
 		})
 	}
 	c.Check("R-NOEFFECT", "L/rapid/exec-environment-used-as-built", "package rapid starts processes with the environment maps exactly as the env package built them: it writes no entry and passes them to nothing that does", len(bad) == 0 && n >= 1, pos, n, "exec environment maps passed on: %d; modified: %v", n, uniq(bad))
+}
+
+// checkRefusedResponseLeavesReplyUntouched (C14, C01): the oversized response is refused before anything was said on
+// the reply stream: no method of the reservation's reply stream is called (no header announced, nothing written) on a
+// path to the ErrorResponseTooLarge return. The substitute error that follows is then the first and only thing the
+// caller sees - a Content-Length announced for the refused body would be forwarded with it.
+func checkRefusedResponseLeavesReplyUntouched(c *report.Ctx) {
+	f := fn(c, rapidcP, "(*Server).sendResponseUnsafe")
+	if f == nil {
+		return
+	}
+	isStream := loadOf("L/rapidcore.InvokeContext", "ReplyStream")
+	touches := func(in ssa.Instruction) bool {
+		call, ok := in.(ssa.CallInstruction)
+		if !ok {
+			return false
+		}
+		cm := call.Common()
+		if cm.IsInvoke() && isStream(cm.Value) {
+			return true
+		}
+		for _, a := range cm.Args {
+			if isStream(a) && !strings.Contains(an.Callee(call), "directinvoke.") {
+				return true
+			}
+		}
+		return false
+	}
+	ord := an.NewOrder(f, func(in ssa.Instruction) uint64 {
+		if touches(in) {
+			return 1
+		}
+		return 0
+	})
+	n, ok := 0, true
+	pos := fpos(f)
+	for _, e := range an.Exits(f) {
+		if len(e.Vals) != 1 {
+			continue
+		}
+		mi, isMI := e.Vals[0].(*ssa.MakeInterface)
+		if !isMI || an.TypeName(mi.X.Type()) != "L/interop.ErrorResponseTooLarge" {
+			continue
+		}
+		n++
+		if _, may := ord.Before(e.Ret); may&1 != 0 {
+			ok = false
+			pos = an.InstrPos(e.Ret)
+		}
+	}
+	c.Check("R-NOEFFECT", an.FuncName(f)+"/refused-response-leaves-the-reply-untouched", "an oversized response is refused before any method of the reply stream was called (no header announced, nothing written)", ok && n >= 1, pos, n, "too-large exits: %d; reply stream untouched on the way to each: %v", n, ok)
+}
+
+// checkNoLostReceiverWrites (C08, C13, C03): a method with a VALUE receiver that assigns a field of its receiver
+// changes a copy; the caller's record keeps its old contents. For the agent tables that is a Clear() that clears
+// nothing - the previous generation's names, identifiers and counts survive the reset. Decided over the whole
+// repository: no value-receiver method stores into a field of (its private copy of) the receiver.
+func checkNoLostReceiverWrites(c *report.Ctx) {
+	n := 0
+	var bad []string
+	pos := token.NoPos
+	all := append([]*ssa.Function(nil), repoFuncs(c)...)
+	for g := range c.P.Absorbed { // (helpers the normal form absorbed into their callers are methods all the same)
+		all = append(all, g)
+	}
+	sort.Slice(all, func(i, j int) bool { return all[i].String() < all[j].String() })
+	for _, f := range all {
+		recv := f.Signature.Recv()
+		if recv == nil || len(f.Params) == 0 || f.Parent() != nil || len(f.Blocks) == 0 {
+			continue
+		}
+		if f.Pos().IsValid() && strings.HasSuffix(c.P.Prog.Fset.Position(f.Pos()).Filename, "_test.go") {
+			continue
+		}
+		if _, isPtr := recv.Type().(*types.Pointer); isPtr {
+			continue
+		}
+		if _, isStruct := recv.Type().Underlying().(*types.Struct); !isStruct {
+			continue
+		}
+		n++
+		// the receiver's cell: the alloc that the parameter is spilled to
+		cells := map[ssa.Value]bool{}
+		for _, ref := range *f.Params[0].Referrers() {
+			if st, ok := ref.(*ssa.Store); ok && st.Val == ssa.Value(f.Params[0]) {
+				cells[st.Addr] = true
+			}
+		}
+		an.AllInstrs(f, func(in ssa.Instruction) {
+			st, ok := in.(*ssa.Store)
+			if !ok {
+				return
+			}
+			if fa, isFA := st.Addr.(*ssa.FieldAddr); isFA && cells[fa.X] {
+				bad = append(bad, an.FuncName(f))
+				if pos == token.NoPos {
+					pos = st.Pos()
+				}
+			}
+		})
+	}
+	c.Check("R-NOEFFECT", "methods/no-write-to-a-copied-receiver", "no method with a value receiver assigns a field of its receiver (the assignment would be lost: a Clear that clears a copy leaves the previous generation's entries in place)", len(bad) == 0 && n >= 1, pos, n, "value-receiver methods on structs: %d; assigning receiver fields: %v", n, uniq(bad))
 }
